@@ -7,7 +7,7 @@ from seqprop import coverage, replay_file, corpus, audit
 
 LEVEL = "proof"
 COQ_TARGETS = ("props/C08.vo",)
-THEOREMS = ["C08_read_your_writes", "C08_commit_complete", "C08_commit_sound", "C08_rollback_noop", "C08_tx_write_is_overlay_step"]
+THEOREMS = ["C08_read_your_writes", "C08_commit_complete", "C08_commit_sound", "C08_rollback_noop", "C08_tx_write_is_overlay_step", "C08_commit_refines_reference_map"]
 RULE = ("in-transaction programs (<= 40 calls on overlapping keys and several keyspaces, every read method after every write, "
         "take/fetch_update/update_fetch with removing, constant and appending functions) on both transactional databases, all "
         "three endings (commit / rollback / drop), reads from outside before and after; compared between implementation, model "
